@@ -18,6 +18,8 @@ mod ops_json;
 mod ops_iter;
 mod ops_res;
 mod ops_patsem;
+mod layout_all;
+mod ops_fields;
 // MOD-MARKER (add `mod ops_<m>;` above this line)
 
 use std::cell::RefCell;
@@ -53,6 +55,7 @@ fn dispatch(st: &mut State, line: &str) -> String {
 		.or_else(|| ops_iter::dispatch(st, fam, rest))
 		.or_else(|| ops_res::dispatch(st, fam, rest))
 		.or_else(|| ops_patsem::dispatch(st, fam, rest))
+		.or_else(|| ops_fields::dispatch(st, fam, rest))
 		// DISPATCH-MARKER (add `.or_else(|| ops_<m>::dispatch(st, fam, rest))` above this line)
 		.unwrap_or_else(|| "bad-op".to_string())
 }
